@@ -21,7 +21,8 @@ Enabled == CASE IOEnv.C16_DEVS = "ignore_cl" -> {"ignore_cl"}
 
 ObsOf(x) == [hc |-> x.hc, status |-> x.status, hdrs |-> x.hdrs, clnums |-> SeqRange(x.clnums),
              clbad |-> x.clbad, allwf |-> x.allwf, body |-> x.body, end |-> x.end,
-             alt |-> x.alt, althdrs |-> x.althdrs]
+             alt |-> x.alt, althdrs |-> x.althdrs,
+             altclnums |-> SeqRange(x.altclnums), altclbad |-> x.altclbad]
 
 VARIABLE l
 TInit == l = 1
